@@ -14,7 +14,7 @@
      mon_C01          snap_ok for every snapshot and for the final state, and an
                       accepted delete of the inventory object leaves only exempt objects.
 
-   Hypotheses (Proofs/PipelineOrphansRun.v):
+   Assumptions of the theorems (defined in Proofs/PipelineOrphansRun.v):
      WF sc c0      the apply set names each object once; the cluster is a map;
                    UIDs are below the server's counter and pairwise distinct; an
                    existing inventory object lives in an existing (or tracked)
